@@ -367,8 +367,14 @@ def oracle(case, obs):
                 say(dest, cmd_last[dest][1], "the command line", "cmdline-does-not-win:" + dest)
         elif dest in in_files:
             sems = [s for _, s in in_files[dest]]
+            proj = [s for f, s in in_files[dest] if not f["home"]]
             if all(s[0] == "v" for s in sems) and all(s == sems[0] for s in sems):
                 say(dest, sems[0][1], "the configuration file", "file-does-not-win:" + dest)
+            elif len(proj) == 1 and all(s[0] == "v" for s in sems):
+                # several files disagree: the one in the current directory ("good for per-project settings") is read after
+                # those of the home directory, whatever the files are called
+                say(dest, proj[0][1], "the configuration file of the current directory (files in the home directory say otherwise)",
+                    "project-file-does-not-win:" + dest)
         else:
             say(dest, default, "the built-in default (option mentioned nowhere)", "default-not-kept:" + dest)
     # --- list-valued options
@@ -866,6 +872,16 @@ def suites(tier, seed):
                   ["tags", "default_tags", "wip"], ["stage", "runner", "junit", "quiet", "steps_catalog"]]
     for i in range(n):
         cases.append(gen_case(rnd, valid=(i % 6 != 5), focus=focus_sets[i % len(focus_sets)]))
+    # which file wins: one file in the home directory and one in the current directory, under different names, both
+    # assigning the same options (the per-project file is read last whatever the two are called)
+    k = 0
+    while k < (400 if thorough else 90):
+        c = gen_case(rnd, valid=True, focus=focus_sets[k % len(focus_sets)])
+        fs = c["files"]
+        if len(fs) == 2 and fs[0]["home"] != fs[1]["home"] and fs[0]["name"] != fs[1]["name"] and \
+                set(d for d, _v in fs[0]["behave"]) & set(d for d, _v in fs[1]["behave"]):
+            cases.append(c)
+            k += 1
     # fixed probes: a value-less --color in every position, every Boolean pair against a file value, files at both depths
     for fl in (["--color", None, "sp"],):
         cases.append({"files": [], "argv": [fl], "env_stage": None, "valid": True, "mkdirs": []})
